@@ -709,6 +709,13 @@ func (e *Env) call(n *contract.Call) Val {
 			e.fail("config(%q) is not set by the unwinding driver", k)
 		}
 		return VT{term.I(v), tyInt}
+	case "bytes":
+		// bytes(s): the byte sequence of a string as a mathematical array (index 0 = first byte)
+		v := e.eval(n.Args[0])
+		if sv, ok := v.(VStr); ok {
+			return VMath{sv.Arr}
+		}
+		e.fail("bytes() of a non-string")
 	case "lockheld":
 		v, _ := scalar(e.eval(n.Args[0]))
 		return VT{term.B(e.st.Locks[v.String()]), tyBool}
